@@ -95,6 +95,9 @@ ConvVal(gv0, lv) ==
               ELSE IF \E i \in 2..Len(ks) : ~TypeEq(TypeOfVal(ks[1].v), TypeOfVal(ks[i].v)) \/ ~TypeEq(TypeOfVal(vs[1].v), TypeOfVal(vs[i].v)) THEN CvNo("mixed")
               ELSE IF ~Keyable(TypeOfVal(ks[1].v)) THEN CvNo("key-kind")
               ELSE IF \E i \in 1..Len(ks) : ~KeyKnown(ks[i].v) THEN [ok |-> TRUE, v |-> [k |-> "ood"]]
+              \* two Go keys that convert to ONE key (an instant given in two zones, NaNs, 1 and 1.0 under interface{}):
+              \* inconsistent data, an error -- not "whichever entry Go's map iteration visits last"
+              ELSE IF \E i, j \in 1..Len(ks) : i < j /\ ks[i].v.k = ks[j].v.k /\ KeyText(ks[i].v) = KeyText(ks[j].v) THEN CvNo("dup-key")
               ELSE CvOk(VMap(TMap(TypeOfVal(ks[1].v), TypeOfVal(vs[1].v)),
                              FoldLeft(LAMBDA ents, i : MapPut(ents, ks[i].v, vs[i].v), <<>>, [i \in 1..Len(ks) |-> i])))
     [] gv.t.g = "struct" ->
